@@ -33,6 +33,26 @@ Proof.
   repeat split; try nia. rewrite N.add_1_r at 1. rewrite N.pow_succ_r'. nia.
 Qed.
 
+(* every accumulation site of retrieve() (fast path with local variables, slow resumable path) is
+   guarded by `run <= limit` with limit <= MAX_BLOCK_SIZE: regenerated list, one entry per site *)
+Definition run_guard_ok (g : option N) : bool :=
+  match g with Some l => l <=? MAX_BLOCK_SIZE | None => false end.
+
+Lemma run_acc_guards_ok : forallb run_guard_ok run_acc_guards = true /\ (2 <= length run_acc_guards)%nat.
+Proof. split; [vm_compute; reflexivity|vm_compute; lia]. Qed.
+
+Lemma guarded_site_safe g lim run shift s :
+  In g run_acc_guards -> g = Some lim -> s <= 1 -> run_inv run shift -> run <= lim ->
+  shift < 32 /\ N.shiftl (s + 1) shift < 2 ^ 32 /\ run + N.shiftl (s + 1) shift < 2 ^ 32.
+Proof.
+  intros Hin -> Hs Hinv Hle.
+  destruct run_acc_guards_ok as [Hall _]. rewrite forallb_forall in Hall. specialize (Hall _ Hin).
+  cbn [run_guard_ok] in Hall. apply N.leb_le in Hall.
+  assert (A : acc_run run shift s = Some (run + N.shiftl (s + 1) shift, shift + 1)).
+  { unfold acc_run. destruct (N.leb_spec run MAX_BLOCK_SIZE) as [|C]; [reflexivity|lia]. }
+  destruct (acc_run_safe _ _ _ _ _ Hs Hinv A) as (B & C & D & _). auto.
+Qed.
+
 Lemma filter_len_le {A} (f : A -> bool) l : (length (filter f l) <= length l)%nat.
 Proof. induction l as [|x l IH]; simpl; [lia|]. destruct (f x); simpl; lia. Qed.
 
